@@ -18,12 +18,14 @@ runs the streams stand-alone and prints a summary.
 import os, sys, time
 
 sys.path.insert(0, os.path.dirname(os.path.dirname(os.path.abspath(__file__))))
-import vlib, asm_gen, asm2_gen
+import vlib, asm_gen, asm2_gen, layout_monitor
 
 BUDGETS = [1, 2, 3, 4, 5, 10, 11, 30]
-KNOWN_CLASSES = {
-    # finding id -> text; matched by input class below
-    "F49": "zero-sized written item extends the output",
+F70_TEXT = ("with the static-value optimisation a label-free program converges in pass 1, without it in pass 2: at budget 1 "
+            "`#d8 1` assembles with the optimisation and fails (`did not converge`) with --debug-no-optimize-static")
+PANIC_TEXT = {
+    "F48": "bank window end (outp + size) overflows usize: debug panic in check_bank_overlap (the model predicts the panic)",
+    "F61": "outp + position of a label / #res overflows usize: debug panic in get_output_position (the model predicts the panic)",
 }
 
 
@@ -45,7 +47,8 @@ class Runner2:
             if len(c) > 3:
                 l += "\t" + "\t".join(c[3:])
             lines.append(l)
-        return vlib.run_lines([self.model], lines)
+        # the extracted functions recurse over the output bit list: give the runner a large stack
+        return vlib.run_lines(["sh", "-c", "ulimit -s 1000000 2>/dev/null; exec " + self.model], lines)
 
 
 def sig(c):
@@ -63,11 +66,14 @@ def gen_budget(rng):
     return rng.weighted([(1, 5), (2, 10), (3, 15), (4, 15), (5, 10), (10, 25), (11, 5), (30, 15)]) if rng.chance(0.8) else rng.range(1, 30)
 
 
-def correspondence(chk, R, rng, n, tag):
-    """stream 1 + 2: n programs, one (budget, switches) each"""
+def correspondence(chk, R, rng, n, tag, need_banks=False):
+    """stream 1 + 2 (+ 3: the Python reading of the layout invariant on every successful implementation output):
+    n programs, one (budget, switches) each; need_banks: only programs with at least one #bankdef"""
     progs, icases, mcases = [], [], []
     for i in range(n):
         p = asm2_gen.gen_prog2(rng)
+        while need_banks and not p.stats().get('bankdef', 0):
+            p = asm2_gen.gen_prog2(rng)
         b = gen_budget(rng)
         s, m = rng.chance(0.5), rng.chance(0.5)
         progs.append((p, b, s, m))
@@ -78,6 +84,8 @@ def correspondence(chk, R, rng, n, tag):
     dist = {"ok": 0, "err": 0, "panic": 0, "with_banks": 0, "with_nested": 0, "chain": 0, "shift": 0, "static": 0, "cascading": 0, "plain": 0}
     ndis = 0
     ok_idx = []
+    first_pass = []
+    nlay_bad = 0
     for i, ((p, b, s, m), a, mo) in enumerate(zip(progs, ia, ma)):
         ci, cm = asm2_gen.canon_impl(a), asm2_gen.canon_model(mo)
         text = icases[i][0]
@@ -92,9 +100,11 @@ def correspondence(chk, R, rng, n, tag):
             chk.nontriv(text)
         if ci[0] not in ("OK", "ERR"):
             dist["panic"] += 1
-            if ci[0] == "PANIC" and cm[0] == "PANIC":
-                # the model predicts the crash: plain `+` overflows of output/mod.rs (F48)
-                chk.known("F48", "bank window / output position arithmetic overflows (model predicts the panic)")
+            pc = asm2_gen.panic_class(p)
+            if ci[0] == "PANIC" and pc and (cm[0] == "PANIC" or (s and b == 1 and cm[0] == "ERR")):
+                # (static optimisation at budget 1: the implementation gets past the resolver in one pass, F70, and then panics)
+                # the model predicts the crash: plain `+` on usize in output/mod.rs / iter.rs get_output_position
+                chk.known(pc, PANIC_TEXT[pc])
                 continue
             chk.violation("implementation crashed or was inconsistent (%s)" % ci[0], rep)
             continue
@@ -103,12 +113,38 @@ def correspondence(chk, R, rng, n, tag):
             ok_idx.append(i)
             if ci[2] > b:
                 chk.violation("reported %d passes with budget %d" % (ci[2], b), rep)
+            for pr in layout_monitor.check_layout(a):
+                nlay_bad += 1
+                if pr["class"] == "zero_size_item_extends_output":
+                    chk.known("F49", "a zero-sized written item extends the output to its position")
+                else:
+                    chk.violation("layout invariant broken on the implementation's output (%s: %s)" % (pr["class"], pr["what"]),
+                                  dict(rep, kind="layout2"))
+        if s and ci[0] == "OK" and ci[2] == 1 and ci != cm:
+            # F70: with the static-value optimisation a program without labels converges in pass 1 (statically known items
+            # are flagged resolved although their stored encoding just changed); without it -- and in the model, which has
+            # the optimisation off -- the same state is confirmed one pass later.  Compared below at budget max(b, 2).
+            first_pass.append(i)
+            continue
         if ci != cm:
             ndis += 1
             chk.violation("Resolver2 model/implementation correspondence broken (program below): impl %s model %s" % (str(ci)[:300], str(cm)[:300]),
                           dict(rep, theorems=["C02b_certificate", "C09b_monotone", "C02b_output_is_layout_ok"]), found=False)
         if i % (max(1, n // 3)) == 1:
             chk.sample({"program": text, "budget": b, "impl": a[:300]})
+    # F70 cases: same observable result as the model one pass later
+    if first_pass:
+        ma2 = R.model_run([(progs[i][0], max(progs[i][1], 2), progs[i][3]) for i in first_pass])
+        for i, mo2 in zip(first_pass, ma2):
+            ci, cm2 = asm2_gen.canon_impl(ia[i]), asm2_gen.canon_model(mo2)
+            p, b, s, m = progs[i]
+            if sig(ci) != sig(cm2) or cm2[2] != 2:
+                ndis += 1
+                chk.violation("Resolver2 model/implementation correspondence broken (one-pass convergence under the static optimisation): impl %s model(budget %d) %s"
+                              % (str(ci)[:300], max(b, 2), str(cm2)[:300]),
+                              {"kind": "program2", "program": icases[i][0], "budget": b, "static_opt": s, "matcher_opt": m, "impl": ia[i][:3000], "model": mo2[:3000]}, found=False)
+            else:
+                chk.known("F70", F70_TEXT)
     # certificate on the implementation's own claimed results (sized symbols come from asmtext)
     sa = R.impl([icases[i] for i in ok_idx], binary="asmtext")
     cert_cases = []
@@ -133,6 +169,7 @@ def correspondence(chk, R, rng, n, tag):
                           {"kind": "certificate2", "program": icases[i][0], "budget": b, "static_opt": s, "matcher_opt": m, "impl": ia[i][:3000], "certificate": c})
     chk.count("resolver2_programs" + tag, len(progs), **dist)
     chk.count("resolver2_certificates_on_impl_output" + tag, ncert)
+    chk.count("resolver2_layout_monitor_on_impl_output" + tag, len(ok_idx))
     chk.cov["traces_validated_against_impl"] += len(progs)
     chk.cov["disagreements_checked"] += ndis
     return dist, ndis
@@ -159,8 +196,9 @@ def budgets_and_switches(chk, R, rng, n, tag):
         rep = {"kind": "budgets2", "program": text, "static_opt": s, "matcher_opt": m, "budgets": BUDGETS,
                "impl": [str(sig(r))[:300] + " it=%s" % r[2] for r in res]}
         if any(r[0] not in ("OK", "ERR") for r in res):
-            if all(r[0] == mo[0] for r, mo in zip(res, mod)):
-                chk.known("F48", "bank window / output position arithmetic overflows (model predicts the panic)")
+            pc = asm2_gen.panic_class(p)
+            if pc and mod[-1][0] == "PANIC" and all(r[0] == mo[0] or (s and BUDGETS[j] == 1 and mo[0] == "ERR") for j, (r, mo) in enumerate(zip(res, mod))):
+                chk.known(pc, PANIC_TEXT[pc])
             else:
                 chk.violation("implementation crashed or was inconsistent at some budget", rep)
             continue
@@ -182,6 +220,12 @@ def budgets_and_switches(chk, R, rng, n, tag):
         if bad:
             continue
         for j in range(k):
+            if s and res[j][0] == "OK" and res[j][2] == 1 and res[j] != mod[j]:
+                # F70: one-pass convergence under the static optimisation; the model confirms the same state in pass 2
+                j2 = max(j, 1)
+                if sig(res[j]) == sig(mod[j2]) and mod[j2][2] == 2:
+                    chk.known("F70", F70_TEXT)
+                    continue
             if res[j] != mod[j]:
                 ndis += 1
                 chk.violation("Resolver2 model/implementation correspondence broken at budget %d: impl %s model %s" % (BUDGETS[j], str(res[j])[:300], str(mod[j])[:300]),
@@ -201,6 +245,10 @@ def budgets_and_switches(chk, R, rng, n, tag):
         res = [asm2_gen.canon_impl(x) for x in sa[pi * 4:(pi + 1) * 4]]
         nsw += 1
         if any(sig(r) != sig(res[0]) for r in res[1:]):
+            b = sw[pi * 4][1]
+            if b == 1 and res[0][0] == "ERR" and res[1][0] == "ERR" and res[2][0] == "OK" and res[2][2] == 1 and sig(res[2]) == sig(res[3]):
+                chk.known("F70", F70_TEXT)
+                continue
             chk.violation("the optimisation switches change the result",
                           {"kind": "switches2", "program": sw[pi * 4][0], "budget": sw[pi * 4][1],
                            "impl(static,matching)=(0,0),(0,1),(1,0),(1,1)": [str(sig(r))[:300] for r in res]})
@@ -210,8 +258,12 @@ def budgets_and_switches(chk, R, rng, n, tag):
     return dist, ndis
 
 
-def run_streams(chk, quick, which=("correspondence", "budgets")):
-    """Entry point for c02.py / c09.py / c06.py.  Sizes: quick ~ 2k programs + 300 x 8 budgets; thorough ~ 20k + 2.5k x 8."""
+def run_streams(chk, quick, which=("correspondence", "budgets", "layout")):
+    """Entry point for c02.py / c09.py / c06.py:
+         c02.py: run_streams(chk, quick, which=("correspondence",))   quick 2k / thorough 20k programs (+ certificates)
+         c09.py: run_streams(chk, quick, which=("budgets",))          quick 300 / thorough 2.5k programs x 8 budgets, x 4 switches
+         c06.py: run_streams(chk, quick, which=("layout",))           quick 1k / thorough 8k programs with >= 1 #bankdef
+       the three streams use different forks of chk.rng, so they see different programs."""
     R = Runner2(("debug",))
     rng = chk.rng.fork("resolver2")
     out = {}
@@ -219,6 +271,8 @@ def run_streams(chk, quick, which=("correspondence", "budgets")):
         out["correspondence"] = correspondence(chk, R, rng.fork("corr"), 2000 if quick else 20000, "")
     if "budgets" in which:
         out["budgets"] = budgets_and_switches(chk, R, rng.fork("budgets"), 300 if quick else 2500, "")
+    if "layout" in which:
+        out["layout"] = correspondence(chk, R, rng.fork("layout"), 1000 if quick else 8000, "_banks", need_banks=True)
     return out
 
 
@@ -250,6 +304,9 @@ if __name__ == "__main__":
     t2 = time.time()
     d2 = budgets_and_switches(chk, R, rng.fork("budgets"), nb, "") if nb else None
     t3 = time.time()
+    d3 = correspondence(chk, R, rng.fork("layout"), max(1, n // 2), "_banks", need_banks=True)
+    t4 = time.time()
+    print("layout stream (%d programs with banks) %.1fs: %s" % (max(1, n // 2), t4 - t3, d3))
     print("build %.1fs  correspondence(%d programs) %.1fs  budgets+switches(%d programs) %.1fs" % (t1 - t0, n, t2 - t1, nb, t3 - t2))
     print("correspondence:", d1)
     print("budgets:", d2)
